@@ -152,12 +152,14 @@ def run(res, tier, seed):
                                     timeout=900)
     rx_bad = 0
     for (b, fl), r in zip(rx_inputs, rx_rows):
-        if r.get("run_ok") and r.get("expr_ok") and r["run_str"] != r["expr_str"] and "{" not in r["run_str"] + r["expr_str"]:
+        differ = (r.get("run_ok") and r.get("expr_ok") and r["run_str"] != r["expr_str"] and "{" not in r["run_str"] + r["expr_str"]) or \
+                 (not r.get("run_ok") and r.get("expr_ok") and not r.get("expr_panic"))      # Run rejects the text, RunExpr evaluates it
+        if differ:
             rx_bad += 1
             if rx_bad <= 2:
                 res.violation({"what": "RunExpr evaluates text differently from Run under the same syntax flags (what the flags disable for Run must be disabled "
                                        "for RunExpr too)", "input": b.decode("utf-8", "replace"), "input_hex": b.hex(), "flags": fl,
-                               "Run": r["run_str"], "RunExpr": r["expr_str"], "Run_rest": r.get("run_rest")})
+                               "Run": r["run_str"] if r.get("run_ok") else "error", "RunExpr": r.get("expr_str"), "Run_rest": r.get("run_rest")})
                 found += 1
     res.cov["runexpr_vs_run"] = {"inputs": len(rx_inputs), "both_evaluated": sum(1 for r in rx_rows if r.get("run_ok") and r.get("expr_ok")), "disagreements": rx_bad}
 
